@@ -520,7 +520,9 @@ class ChainedDiscretizer(BaseDiscretizer):
                 super()._remove_feature(feature)
 
         # checking for columns containing floats or integers even with filled nans
-        dtypes = x_copy[self.features].fillna(self.str_nan).map(type).apply(unique)
+        dtypes = (
+            x_copy[self.features].fillna(self.str_nan).map(type).apply(unique, result_type="reduce")
+        )
         not_object = dtypes.apply(lambda u: any(typ != str for typ in u))
 
         # non qualitative features detected
